@@ -73,6 +73,8 @@ def record(sp, rs, k, thorough):
         max_iter = int(rs.choice([10, 30]))
         ksp = rs.randn(nc, *shape) + 1j * rs.randn(nc, *shape)
         maps = None
+    if k % 4 == 1 or k % 8 == 2:
+        ksp = np.asfortranarray(ksp)       # a Fortran-ordered acquisition is the same data
     ksp0 = ksp.copy()
     np.random.seed(k)
     app = mr.app.EspiritCalib(ksp, calib_width=calib_width, thresh=thresh, kernel_width=kernel_width, crop=crop, max_iter=max_iter, output_eigenvalue=True, show_pbar=False)
